@@ -48,6 +48,13 @@ def http_vectors(rng: random.Random, tier_: str) -> list[dict[str, Any]]:
                 if tl and tmpl in TIMELINE_TEMPLATES:
                     q += '&timeline=1'
                 add(tmpl, q, now)
+    # an explicit start with a fractional second: the manifest forwards its resolved start to every media URL, and the segment
+    # endpoint rebuilds the window from that text - every tenth of a second of one segment duration, no leeway
+    fast = ast + sec(0.9)
+    steps = list(range(40))
+    for k in (steps if tier_ == 'thorough' else sorted(rng.sample(steps, 14))):
+        tl = k % 2
+        add('hand_made.mpd', 'start=2024-02-29T11:00:00.900Z&depth=30&leeway=0' + ('&timeline=1' if tl else ''), fast + sec(3600 + k * 0.1 + 0.05))
     # very first seconds after availabilityStartTime (window clamped to elapsed)
     for el in (1.0, 3.999999, 4.0, 4.000001, 8.5, 15.0, 59.999999, 61.0):
         for tl in (0, 1):
@@ -102,6 +109,10 @@ def http_vectors(rng: random.Random, tier_: str) -> list[dict[str, Any]]:
     for tl in (0, 1):
         for el in ((137.25, 3601.0) if tier_ == 'quick' else (12.0, 95.5, 120.0, 137.25, 3601.0, 86399.0, 400000.5)):
             add('hand_made.mpd', f'start={ast.strftime("%Y-%m-%dT%H:%M:%SZ")}&depth=30' + ('&timeline=1' if tl else ''), ast + sec(el), 'aref')
+    # a stream whose stored fragments are numbered 1, 3, 5, ... in their own mfhd boxes: first pass through the media and later
+    for tl in (0, 1):
+        for el in ((14.5, 137.25) if tier_ == 'quick' else (9.0, 14.5, 30.0, 38.5, 95.5, 137.25)):
+            add('hand_made.mpd', f'start={ast.strftime("%Y-%m-%dT%H:%M:%SZ")}&depth=30' + ('&timeline=1' if tl else ''), ast + sec(el), 'renum')
     # the default window (30 minutes): partial walk (oldest, newest and a sample in between)
     add('hand_made.mpd', '', day + sec(50000.5))
     add('hand_made.mpd', 'timeline=1', day + sec(50003.999999))
@@ -188,6 +199,13 @@ def run(prop: str, tier_: str) -> int:
             da.add_fixture('bbb', directory='vtt', title='stored without tfdt', only={'bbb_v7', 'bbb_a1'},
                            extra=[(_REPO / 'tests' / 'fixtures' / 'webvtt.mp4', 'vtt_t2')])
             da.add_fixture('bbb', directory='aref', title='audio is the timing reference', only={'bbb_v7', 'bbb_a1'}, ref_stem='bbb_a1')
+            from harness.synth import renumber_mfhd
+            rn = []
+            for stem in ('bbb_a1', 'bbb_v6'):
+                rf = d / f'renum_{stem[4:]}.mp4'
+                rf.write_bytes(renumber_mfhd((_REPO / 'tests' / 'fixtures' / 'bbb' / f'{stem}.mp4').read_bytes()))
+                rn.append((rf, f'renum_{stem[4:]}'))
+            da.add_fixture('bbb', directory='renum', title='fragments numbered 1, 3, 5, ...', only={'bbb_v7'}, extra=rn)
             drv = HttpDriver(da)
             for i, v in enumerate(vecs):
                 hlines.extend(drv.live_manifest(i + 1, v.get('stream', 'bbb'), v['tmpl'], v['q'], v['now']))
